@@ -36,6 +36,7 @@ type intrFn func(p *Path, args []Value, site ssa.Instruction) Value
 type Engine struct {
 	Prog        *ssa.Program
 	TargetPaths map[string]bool // package paths whose function bodies are executed
+	TargetPrefixes []string     // ... and every package path with one of these prefixes
 	Transparent map[string]bool // foreign functions whose SSA body is executed
 	Cfg         Config
 	intrinsics  map[string]intrFn
@@ -93,6 +94,7 @@ type Path struct {
 	nvar     int
 	nobj     int
 	nerr     int
+	njv      int
 	globals  map[*ssa.Global]*Object
 	sentinels map[string]Value
 	inputs   []*Input
